@@ -1,7 +1,7 @@
 SPECIFICATION MCSpec
 CONSTANTS Nib = {0, 1}
           KeyLen = 3
-          Vals = {10, 331}
+          Vals = {10, 271}
           Pad = 1
           MaxKeys = 8
           Mode = "mc"
